@@ -640,10 +640,17 @@ impl Drop for OsOpaqueIpcChannel {
     fn drop(&mut self) {
         // Make sure we don't leak!
         //
-        // The `OsOpaqueIpcChannel` objects should always be used,
-        // i.e. converted with `to_sender()` or `to_receiver()` --
-        // so the value should already be unset before the object gets dropped.
-        debug_assert!(self.fd == -1);
+        // The `OsOpaqueIpcChannel` objects are normally used,
+        // i.e. converted with `to_sender()` or `to_receiver()`, which unsets the value.
+        // A descriptor that was received but never handed to anyone
+        // (undecodable message, message dropped without decoding, aborted fragmented transfer)
+        // is still ours and has to be closed here.
+        if self.fd >= 0 {
+            unsafe {
+                let result = libc::close(self.fd);
+                assert!(thread::panicking() || result == 0);
+            }
+        }
     }
 }
 
